@@ -23,9 +23,13 @@ func init() {
 
 func runC07(c *Ctx) {
 	r := c.R
-	r.Rule("C07.R1", "generateMatchedSDP, loop over remoteDescription.parsed.MediaDescriptions: on every path from the start of an iteration to the next one exactly one mediaSection is appended (at the tail) whose id is getMidValue of that iteration's m-section; the only other ways out of the loop body are error returns", 9)
-	r.Rule("C07.R2", "every append of a section after the remote loop is guarded by a true test of one boolean parameter (includeUnmatched), and CreateAnswer passes the constant false for it", 3)
-	r.Rule("C07.R3", "populateSDP: every iteration over the sections calls exactly one of addDataMediaSection / addTransceiverSDP (other exits are error returns); addDataMediaSection reaches a nil-error return only after exactly one descr.WithMedia; addTransceiverSDP after exactly one (full or rejected); nothing else calls WithMedia", 12)
+	// Instance minima count the semantic facts a rule must establish (one per kind of section source, per
+	// attribute, per table cell, per guarded write …), not the incidental number of sites: a refactor that merges
+	// two sites (one error return instead of two, one literal shared by two arms, a block moved into a helper)
+	// must not trip them, while losing an anchor still does.
+	r.Rule("C07.R1", "generateMatchedSDP, loop over remoteDescription.parsed.MediaDescriptions: on every path from the start of an iteration to the next one exactly one mediaSection is appended (at the tail) whose id is getMidValue of that iteration's m-section; the only other ways out of the loop body are error returns", 6)
+	r.Rule("C07.R2", "every append of a section after the remote loop is guarded by a true test of one boolean parameter (includeUnmatched), and CreateAnswer passes the constant false for it", 2)
+	r.Rule("C07.R3", "populateSDP: every iteration over the sections calls exactly one of addDataMediaSection / addTransceiverSDP (other exits are error returns); addDataMediaSection reaches a nil-error return only after exactly one descr.WithMedia; addTransceiverSDP after exactly one (full or rejected); nothing else calls WithMedia", 8)
 	r.Rule("C07.R4", "the rejected section emitted by addTransceiverSDP has port 0, the first transceiver's kind as media name and a mid attribute taken from the mid parameter", 3)
 	r.NotCovered = append(r.NotCovered,
 		"media-type equality when the remote reuses a mid for another kind",
@@ -96,9 +100,9 @@ func c06SectionList(env *c06Env, rule string, fi *core.FuncInfo) (g *core.Graph,
 		return
 	}
 	appends = map[int]*c06Section{}
-	byLit := map[*ast.CompositeLit]*c06Section{}
+	byExpr := map[ast.Expr]*c06Section{}
 	for _, s := range c06Sections(env, fi) {
-		byLit[s.Lit] = s
+		byExpr[s.Expr] = s
 	}
 	for _, n := range g.Nodes {
 		if n.Ast == nil {
@@ -115,8 +119,9 @@ func c06SectionList(env *c06Env, rule string, fi *core.FuncInfo) (g *core.Graph,
 			}
 		}
 		if l, elems, isApp := c06TailAppend(info, n.Ast); isApp && l == sections && len(elems) == 1 {
-			if cl, isLit := ast.Unparen(elems[0]).(*ast.CompositeLit); isLit && byLit[cl] != nil {
-				appends[n.ID] = byLit[cl]
+			// a mediaSection literal, or a call of a helper that returns one
+			if sec := byExpr[ast.Unparen(elems[0])]; sec != nil {
+				appends[n.ID] = sec
 				continue
 			}
 		}
@@ -266,13 +271,12 @@ func c07R1(env *c06Env, m *c07Matched) {
 	for _, n := range inLoop {
 		s := m.appends[n]
 		key := fname + "|remote-media-loop|append|mediaSection{" + s.fieldNames() + "}|id"
-		pos := c.P.Pos(s.Lit.Pos())
-		idExpr, has := s.Fields["id"]
+		pos := c.P.Pos(s.pos())
+		src, has := s.idSrc(env)
 		if !has {
 			r.Fail(rule, key, pos, "the appended section has no id")
 			continue
 		}
-		src := c06MidSource(env, g, n, idExpr)
 		r.Check(src.Class == "remote-mid" && src.Var == l.ValueVar, rule, key, pos, "id is getMidValue of this iteration's m-section",
 			"the section appended for a remote m-section does not carry that m-section's mid ("+src.Desc+")")
 	}
@@ -421,11 +425,11 @@ func c07R2(env *c06Env, m *c07Matched) {
 	for _, n := range post {
 		s := m.appends[n]
 		src := "(none)"
-		if e, ok := s.Fields["id"]; ok {
-			src = c06MidSource(env, g, n, e).Desc
+		if sr, ok := s.idSrc(env); ok {
+			src = sr.Desc
 		}
 		key := fname + "|post-loop-append|mediaSection{" + s.fieldNames() + "}|id<-" + src
-		r.Check(flag != nil, rule, key, c.P.Pos(s.Lit.Pos()), "guarded by the includeUnmatched parameter", "a section is appended after the remote loop without a true test of a boolean parameter that CreateAnswer passes as false: the answer gets more m-sections than the offer")
+		r.Check(flag != nil, rule, key, c.P.Pos(s.pos()), "guarded by the includeUnmatched parameter", "a section is appended after the remote loop without a true test of a boolean parameter that CreateAnswer passes as false: the answer gets more m-sections than the offer")
 	}
 	if len(post) == 0 {
 		r.Info(rule, fname+"|post-loop-append|none", c.P.Pos(env.genMatched.Decl.Pos()), "no section is appended after the remote loop")
@@ -547,7 +551,7 @@ func c07R3(env *c06Env) {
 	for _, fi := range []*core.FuncInfo{env.addData, env.addTr} {
 		em := c06Emissions(env, fi)
 		g := em.g
-		all := append(append([]int{}, em.normal...), em.reject...)
+		all := append(append(append([]int{}, em.normal...), em.reject...), em.other...)
 		w := func(n int) c06Span {
 			for _, x := range all {
 				if x == n {
@@ -640,16 +644,33 @@ func c07R4(env *c06Env) {
 	info := g.Info
 	fpos := c.P.Pos(fi.Decl.Pos())
 	if len(em.reject) != 1 {
-		r.Fail(rule, "addTransceiverSDP|rejected-section|emission", fpos, sprintf("expected exactly one emission of a rejected (literal) media description, found %d: a section the answerer cannot use is not rejected in place", len(em.reject)))
+		r.Fail(rule, "addTransceiverSDP|rejected-section|emission", fpos, sprintf("expected exactly one emission of a rejected (port 0 literal) media description, found %d: a section the answerer cannot use is not rejected in place", len(em.reject)))
 		return
 	}
 	n := em.reject[0]
 	arg := em.argOf[n]
 	pos := c.P.Pos(arg.Pos())
-	lit := c06MDLiteral(info, em.create[n])
+	// the literal lives in addTransceiverSDP or in a same-package helper that returns it; linfo is its types.Info
+	h := em.helper[n]
+	linfo := info
+	if h != nil {
+		linfo = h.g.Info
+	}
+	lit := c06MDLiteral(linfo, em.create[n])
 	if lit == nil {
 		r.Undecided(rule, "addTransceiverSDP|rejected-section|shape", pos, "the rejected section is not built from an sdp.MediaDescription literal")
 		return
+	}
+	// inCaller maps an operand of the literal / builder chain to the expression it denotes inside
+	// addTransceiverSDP: itself, or the call argument bound to the helper parameter it names
+	inCaller := func(e ast.Expr) ast.Expr {
+		if e == nil {
+			return nil
+		}
+		if h == nil {
+			return e
+		}
+		return h.bound(e)
 	}
 	field := c06LitField
 	var mediaE ast.Expr
@@ -661,12 +682,12 @@ func c07R4(env *c06Env) {
 	}
 	// port 0 is what classifies the emission as the rejected one
 	r.OK(rule, "addTransceiverSDP|rejected-section|port", pos, "port 0")
-	// media name = kind of the first transceiver of the section
+	// media name = kind of the first transceiver of the section: K.String() with K = <section transceiver>.kind
 	kindField := c.mustField(rule, "", "RTPTransceiver", "kind")
 	kindString := c.mustFunc(rule, "", "RTPCodecType.String")
 	kindOK := false
-	if mc, ok := ast.Unparen(mediaE).(*ast.CallExpr); ok && mediaE != nil && kindField != nil && kindString != nil && core.IsCallTo(info, mc, kindString.Obj) {
-		if rv := c06Recv(info, mc); rv != nil && core.FieldOf(info, rv) == kindField {
+	if mc, ok := ast.Unparen(mediaE).(*ast.CallExpr); ok && mediaE != nil && kindField != nil && kindString != nil && core.IsCallTo(linfo, mc, kindString.Obj) {
+		if rv := inCaller(c06Recv(linfo, mc)); rv != nil && core.FieldOf(info, rv) == kindField {
 			if se, ok := ast.Unparen(rv).(*ast.SelectorExpr); ok {
 				kindOK = c06IsSectionTransceiver(env, g, n, se.X)
 			}
@@ -695,72 +716,90 @@ func c07R4(env *c06Env) {
 		r.Undecided(rule, "addTransceiverSDP|rejected-section|mid", pos, "cannot identify the parameter that carries the section's mid")
 		return
 	}
-	nMid, nGood := 0, 0
-	isMidCall := func(call *ast.CallExpr) (isMid, good bool) {
-		if c06ExtMethod(info, call, c06SDPPkg, "MediaDescription", "WithValueAttribute") && len(call.Args) == 2 {
-			if k, ok := c06ConstString(info, call.Args[0]); ok && k == "mid" {
-				return true, core.VarOf(info, call.Args[1]) == midParam
+	// mid attributes are counted on both sides: builder calls / Attributes entries inside the helper (values
+	// resolved through the parameter binding) and builder calls in addTransceiverSDP itself
+	isMidCall := func(ci *types.Info, call *ast.CallExpr, resolve func(ast.Expr) ast.Expr) (isMid, good bool) {
+		if c06ExtMethod(ci, call, c06SDPPkg, "MediaDescription", "WithValueAttribute") && len(call.Args) == 2 {
+			if k, ok := c06ConstString(ci, call.Args[0]); ok && k == "mid" {
+				v := resolve(call.Args[1])
+				return true, v != nil && core.VarOf(info, v) == midParam
 			}
 		}
 		return false, false
 	}
-	if mv := em.media[n]; mv != nil {
-		// builder calls applied to the variable on the way to the emission
-		anyW := func(x int) c06Span {
-			k := 0
-			if a := g.Nodes[x].Ast; a != nil {
-				for _, call := range c06CallsOnVar(info, a, mv) {
-					if m, _ := isMidCall(call); m {
-						k++
+	same := func(e ast.Expr) ast.Expr { return e }
+	// countOnVar: spans (any, good) of mid builder calls applied to variable mv on the paths entry -> node `to` of graph cg
+	countOnVar := func(cg *core.Graph, mv *types.Var, to int, resolve func(ast.Expr) ast.Expr) (c06Span, c06Span) {
+		mk := func(wantGood bool) func(int) c06Span {
+			return func(x int) c06Span {
+				k := 0
+				if a := cg.Nodes[x].Ast; a != nil {
+					for _, call := range c06CallsOnVar(cg.Info, a, mv) {
+						m, gd := isMidCall(cg.Info, call, resolve)
+						if (wantGood && gd) || (!wantGood && m) {
+							k++
+						}
 					}
 				}
+				return c06Span{k, k}
 			}
-			return c06Span{k, k}
 		}
-		goodW := func(x int) c06Span {
-			k := 0
-			if a := g.Nodes[x].Ast; a != nil {
-				for _, call := range c06CallsOnVar(info, a, mv) {
-					if _, gd := isMidCall(call); gd {
-						k++
-					}
-				}
-			}
-			return c06Span{k, k}
-		}
-		sa, _ := c06PathCount(g, g.Entry, n, nil, nil, anyW)
-		sg, _ := c06PathCount(g, g.Entry, n, nil, nil, goodW)
+		sa, _ := c06PathCount(cg, cg.Entry, to, nil, nil, mk(false))
+		sg, _ := c06PathCount(cg, cg.Entry, to, nil, nil, mk(true))
 		r.Cells += 2
-		if sa.Min != sa.Max || sg.Min != sg.Max {
-			r.Fail(rule, "addTransceiverSDP|rejected-section|mid|source", pos, sprintf("the rejected section gets %s mid attribute(s) (%s from the mid parameter) depending on the path", sa, sg))
-			return
-		}
-		nMid, nGood = sa.Max, sg.Max
-	} else {
-		chain, _ := c06ChainCalls(info, arg)
+		return sa, sg
+	}
+	countChain := func(ci *types.Info, e ast.Expr, resolve func(ast.Expr) ast.Expr) (int, int) {
+		a, gd := 0, 0
+		chain, _ := c06ChainCalls(ci, e)
 		for _, call := range chain {
-			if m, gd := isMidCall(call); m {
-				nMid++
-				if gd {
-					nGood++
+			if m, ok := isMidCall(ci, call, resolve); m {
+				a++
+				if ok {
+					gd++
 				}
 			}
+		}
+		return a, gd
+	}
+	anySpan, goodSpan := c06Span{}, c06Span{}
+	addN := func(a, gd int) { anySpan, goodSpan = anySpan.add(c06Span{a, a}), goodSpan.add(c06Span{gd, gd}) }
+	// caller side
+	if mv := em.media[n]; mv != nil {
+		sa, sg := countOnVar(g, mv, n, same)
+		anySpan, goodSpan = anySpan.add(sa), goodSpan.add(sg)
+	} else {
+		addN(countChain(info, arg, same))
+	}
+	// helper side
+	if h != nil {
+		if h.media != nil {
+			sa, sg := countOnVar(h.g, h.media, h.ret, h.bound)
+			anySpan, goodSpan = anySpan.add(sa), goodSpan.add(sg)
+		} else {
+			addN(countChain(h.g.Info, h.expr, h.bound))
 		}
 	}
 	// Attributes: []sdp.Attribute{{Key: "mid", Value: midValue}}
 	if at, ok := ast.Unparen(field(lit, "Attributes")).(*ast.CompositeLit); ok && at != nil {
 		for _, el := range at.Elts {
 			if acl, ok := ast.Unparen(el).(*ast.CompositeLit); ok {
-				if k, isC := c06ConstString(info, field(acl, "Key")); isC && k == "mid" {
-					nMid++
-					if core.VarOf(info, field(acl, "Value")) == midParam {
-						nGood++
+				if k, isC := c06ConstString(linfo, field(acl, "Key")); isC && k == "mid" {
+					gd := 0
+					if v := inCaller(field(acl, "Value")); v != nil && core.VarOf(info, v) == midParam {
+						gd = 1
 					}
+					addN(1, gd)
 				}
 			}
 		}
 	}
 	key := "addTransceiverSDP|rejected-section|mid"
+	if anySpan.Min != anySpan.Max || goodSpan.Min != goodSpan.Max {
+		r.Fail(rule, key+"|source", pos, sprintf("the rejected section gets %s mid attribute(s) (%s from the mid parameter) depending on the path", anySpan, goodSpan))
+		return
+	}
+	nMid, nGood := anySpan.Max, goodSpan.Max
 	switch {
 	case nMid == 1 && nGood == 1 && c06AssignedAnywhere(g, midParam) == 0:
 		r.OK(rule, key, pos, "a=mid from the mid parameter")
